@@ -246,6 +246,19 @@ def runProg (ticks : Nat) (src : List FramerSrc) : List String :=
     | .ok s =>
       s.out.reverse ++ ["END"] ++ sortStrings (s.store.filterMap (fun (p, v) => v.map (fun v => "V " ++ p ++ " value=" ++ toString v)))
 
+/-- the ghost flag of finding D12r at the end of the run (`Ioflo.Clones.St.lateRear`): a `rear` made a clone in a frame
+whose entry check was over and whose enter was still to come -/
+def lateRearOf (ticks : Nat) (src : List FramerSrc) : Bool :=
+  match build src with
+  | .error _ => false
+  | .ok s =>
+    let hostIds := (s.objs.filter (fun o => o.sched == .active)).map (·.uid)
+    let s := snapshot hostIds (s.emit "BUILD ok")
+    let hosts := hostIds.map (fun u => ({ uid := u } : Host))
+    match ticksLoop hostIds (ticks + 1) 0 hosts s with
+    | .error _ => false
+    | .ok s => s.lateRear
+
 def progP : P (Nat × List FramerSrc) := fun ts => do
   let (t, r) ← nat ts
   let (fs, r) ← many framerP r
@@ -256,6 +269,10 @@ def step (_ : Unit) (line : String) : Unit × String :=
   | "run" :: rest =>
     match progP rest with
     | some ((t, fs), []) => ((), "|".intercalate (runProg t fs))
+    | _ => ((), "bad-op")
+  | "region" :: rest =>
+    match progP rest with
+    | some ((t, fs), []) => ((), if lateRearOf t fs then "1" else "0")
     | _ => ((), "bad-op")
   | _ => ((), "bad-op")
 
